@@ -609,6 +609,7 @@ class Interp(object):
         self.apply_decorators = set()    # qualified names of repository decorators to interpret
         self._decorated = {}
         self._lru = {}                   # results of functions under functools.lru_cache / cache
+        self.work = 0                    # cost of linear-time primitives (list membership, copies, sorting ...): see cost()
         if hasattr(explorer, "interps"):
             explorer.interps.append(self)
 
@@ -806,9 +807,21 @@ class Interp(object):
         self.unsupported("unknown name %s" % name)
 
     # ------------------------------------------------------------------ calls
+    _LINEAR_PRIMS = {"list", "tuple", "set", "frozenset", "dict", "sorted", "sum", "any", "all", "min", "max", "zip",
+                     "enumerate", "map", "filter", "reversed", "str.join"}
+
+    def cost(self):
+        """Interpreted steps plus the sizes of the containers handed to linear-time primitives (membership test in a
+        list / tuple, copy, concatenation, slice, sort, sum ...): a measure that grows like the running time."""
+        return self.steps + self.work
+
     def call(self, f, args, kwargs=None, node=None):
         kwargs = kwargs or {}
         self.steps += 1
+        if isinstance(f, Prim) and f.name in self._LINEAR_PRIMS:
+            for a_ in args:
+                if isinstance(a_, (list, tuple, set, frozenset, dict)):
+                    self.work += len(a_)
         if self.steps > self.max_steps:
             self.unsupported("step budget exhausted")
         if isinstance(f, Partial):
@@ -1302,6 +1315,10 @@ class Interp(object):
             if name in ("get", "setdefault", "pop") and isinstance(obj, dict) and args and isinstance(args[0], Abs) \
                     and not _hashable_abs(args[0]):
                 self.unsupported("dict.%s with abstract key" % name)
+            if isinstance(obj, list) and name in ("index", "count", "remove", "insert", "copy", "reverse", "sort", "extend") or \
+                    isinstance(obj, (set, frozenset, dict)) and name in ("copy", "union", "difference", "intersection", "update",
+                                                                        "symmetric_difference", "issubset", "issuperset"):
+                self.work += len(obj) + sum(len(a_) for a_ in args if isinstance(a_, (list, tuple, set, frozenset, dict)))
             if name in ("items", "keys", "values"):
                 return list(getattr(obj, name)())
             if name == "sort":
@@ -1893,6 +1910,7 @@ class Interp(object):
             if isinstance(a, (list, tuple)) and isinstance(b, (list, tuple)) and op == "+":
                 if type(a) is not type(b):
                     raise AbsRaise("TypeError", ("concatenate %s and %s" % (type(a).__name__, type(b).__name__),))
+                self.work += len(a) + len(b)
                 return a + b
             if isinstance(a, list) and op == "+":
                 return a + list(self.iterate(b, node))
@@ -1997,6 +2015,8 @@ class Interp(object):
                 self.unsupported("abstract item in str", node)
             return item in container
         items = list(container.keys()) if isinstance(container, dict) else list(container)
+        if isinstance(container, (list, tuple)):
+            self.work += len(items)          # linear scan (hash containers answer in one probe)
         if isinstance(item, NTObj):
             if isinstance(container, (dict, set, frozenset)):
                 return item in container
@@ -2046,7 +2066,9 @@ class Interp(object):
                     if hit:
                         return r
                 self.unsupported("slice of %r" % (c,), node)
-            return c[lo:hi:stp]
+            r_ = c[lo:hi:stp]
+            self.work += len(r_) if hasattr(r_, "__len__") else 0
+            return r_
         k = self.eval(sl, env, ctx)
         if isinstance(c, ExtRef):
             return ExtRef(c.name + "[]")          # typing generics: Sequence[FNode] ...
